@@ -29,6 +29,11 @@ var leakedIDs []uint64
 
 func report(c *vf.Ctx, r *run) {
 	sp := r.sp
+	if r.blind != "" { // never a violation on ambiguity
+		c.Count("runs_undecidable", 1)
+		c.Inconclusive("structural rules cannot see the workers: " + r.blind + " (" + sp.key() + ")")
+		return
+	}
 	c.Count("runs", 1)
 	if sp.Script != "" {
 		c.Count("scripted_runs", 1)
